@@ -17,7 +17,7 @@ EXPLANATION = ("Harness c19.prog: two instances with a call-counting dynamic val
 STUBS = []
 OUTSIDE = ["per-instance copies of a generator read at times other than the time of the copy (the time function is deep-copied with it)", "statistical quality of the hash", "time types other than int", "times outside [0,3]"]
 ASSUMPTIONS = ["times in [0,3] (values are realised by struct.pack / hashing inside numbergen)"]
-N_OPS = 10
+N_OPS = 11
 
 
 class Gen:
@@ -54,7 +54,10 @@ def prog(k: int, o1: int, t1: int, o2: int, t2: int, o3: int, t3: int, o4: int, 
             class PC(param.Parameterized):
                 # class-level default: every instance gets its own copy of the seeded generator
                 cu = param.Number(default=numbergen.UniformRandom(name='cu', seed=7, time_dependent=True, time_fn=tm), instantiate=True)
+                cg = param.Dynamic(default=None)
             pc1, pc2 = PC(), PC()
+            gcls = Gen()
+            PC.cg = gcls          # a class-level generator assigned after the instances exist: they follow it
             fresh = numbergen.UniformRandom(name='cu', seed=7, time_dependent=True, time_fn=tm)
             p = P(d=g, u=mk(), z=zf, w=ts())
             p2 = P(d=Gen(), u=mk(), z=zf, w=ts())
@@ -88,6 +91,8 @@ def prog(k: int, o1: int, t1: int, o2: int, t2: int, o3: int, t3: int, o4: int, 
                 utable[now] = u
                 check('C19.same_time_same_value', obj.u == u, info)
                 wv = obj.w
+                cgv = (pc1 if o == 2 else pc2).cg
+                check('C19.same_time_same_value', (pc1 if o == 2 else pc2).cg == cgv, dict(info, class_level_generator=True))
                 check('C19.read_leaves_time', tm() == now, dict(info, after=tm()))
                 if now == 0:
                     # per-instance copies of a class-level seeded generator (the copy carries its own copy of the time
@@ -136,6 +141,23 @@ def prog(k: int, o1: int, t1: int, o2: int, t2: int, o3: int, t3: int, o4: int, 
                 finally:
                     pass
                 check('C19.context_restores_time', tm() == before and swallowed is True, dict(info, now2=tm(), swallowed=swallowed))
+            elif o == 10:       # push, move on in time, read, pop: the caches are as at the push (instance- and class-level generators)
+                assume(not pushed and tm() < 3)
+                pc1.cg
+                p.d
+                saved = [(getattr(x, '_Dynamic_time', None), getattr(x, '_Dynamic_last', None)) for x in (g, gcls)]
+                t0 = tm()
+                p.param._state_push()
+                pc1.param._state_push()
+                tm.advance(1)
+                pc1.cg
+                p.d
+                pc1.param._state_pop()
+                p.param._state_pop()
+                tm(t0)
+                now_ = [(getattr(x, '_Dynamic_time', None), getattr(x, '_Dynamic_last', None)) for x in (g, gcls)]
+                check('C19.push_pop_restores', now_[0] == saved[0], dict(info, compact=True, which='instance-level generator'))
+                check('C19.push_pop_restores', now_[1] == saved[1], dict(info, compact=True, which='class-level generator', saved=repr(saved[1]), now=repr(now_[1])))
             elif o == 9:        # the class is read, then an instance is created and read for the first time at the same time
                 assume(t <= 1)
                 cls_v = PC.cu if t == 0 else None
@@ -152,11 +174,16 @@ def prog(k: int, o1: int, t1: int, o2: int, t2: int, o3: int, t3: int, o4: int, 
             elif o == 6:
                 if not pushed:
                     p.param._state_push()
-                    pushed.append((getattr(g, '_Dynamic_time', None), getattr(g, '_Dynamic_last', None)))
+                    pc1.param._state_push()
+                    pushed.append((getattr(g, '_Dynamic_time', None), getattr(g, '_Dynamic_last', None),
+                                   getattr(gcls, '_Dynamic_time', None), getattr(gcls, '_Dynamic_last', None)))
                 else:
                     p.param._state_pop()
-                    st, lv = pushed.pop()
+                    pc1.param._state_pop()
+                    st, lv, cst, clv = pushed.pop()
                     check('C19.push_pop_restores', getattr(g, '_Dynamic_time', None) == st and getattr(g, '_Dynamic_last', None) == lv, info)
+                    check('C19.push_pop_restores', getattr(gcls, '_Dynamic_time', None) == cst and getattr(gcls, '_Dynamic_last', None) == clv,
+                          dict(info, class_level_generator=True))
         while ctx:
             tm.__exit__(None, None, None)
             check('C19.context_restores_time', tm() == ctx.pop(), {'final': True})
@@ -197,4 +224,4 @@ def bounds(tier):
     return dict(program_length=3 if tier == 'quick' else 5, times='[0,3]', context_nesting=2,
                 opcodes=['set time', 'advance 1', 'read on instance 1', 'inspect_value', 'enter time context + set time', 'leave context',
                          '_state_push / _state_pop (alternating)', 'read on instance 2', 'leave context through StopIteration',
-                         'read the class, create an instance, read it for the first time'])
+                         'read the class, create an instance, read it for the first time', 'push; advance; read; pop (compact)'])
